@@ -6,6 +6,7 @@ from ..frontend import AnalysisError, loc, normalise
 from ..values import *      # noqa
 from .. import contexts as C
 from .. import charge as Q
+from .. import segmap as S
 from ..d1rules import check_sink, report_conflicts, psd_classes, ctor_args, PSD_FIELD
 from ..d1rules import blocked as blocked1
 from ..d4rules import run_d4, report_q, blocked
@@ -26,12 +27,14 @@ def run(prog, rep, tier='quick'):
         'NOT decided: equality with T/(e^H R^-1 e), strict positivity (numerical).')
     rep.rule('burg', 'arburg is called with (X, order-1); A = insert(a, 0, 1); returned k is arburg\'s third result')
     rep.rule('hermitian', 'charge typing of the psi loop; transform input holds charge k at index k (mod NFFT)')
+    rep.rule('bins', 'index map of the returned PSD: identity on the NFFT bins (for real data a slot may hold the mirror bin NFFT-j)')
     rep.rule('units', 'PSD exponents: s=2, hz=+1, nfft=0; real-valued')
     rep.rule('forwarding', 'pminvar passes data/order/sampling/NFFT to minvar and stores res[1], res[2]')
     f = prog.func('minvar', 'minvar')
     where = loc(f.mod, f.node)
     seen = set()
     n = 0
+    nb = 0
     for cplx in (False, True):
         for par in ('even', 'odd'):
             ctx = '%s, NFFT %s' % ('complex' if cplx else 'real', par)
@@ -51,9 +54,13 @@ def run(prog, rep, tier='quick'):
                 continue
             psd, A, k = v.items
             want_n = kwn.a
-            for e in itp.events:
-                if e[0] == 'fft-out' and e[3] == f.qname:
-                    got = e[2][0] if (e[2] is not None and len(e[2]) == 1) else None
+            from ..prims import _int_aff
+            fnames = [e2[3] for e2 in itp.events if e2[0] == 'fft-out']
+            ffts = [e2 for e2 in itp.events if e2[0] == 'fft']
+            for e, fn_ in zip(ffts, fnames):
+                if fn_ == f.qname:
+                    # the transform size is its length argument (rfft returns n//2+1 of the n bins)
+                    got = _int_aff(e[4]) if e[4] is not None else (e[3][0] if (e[3] is not None and len(e[3]) == 1) else None)
                     c = 'transform length %s [%s]' % (normalise(e[1]), ctx)
                     if got is None:
                         rep.undecided('hermitian', f.qname, c, 'length not derivable', where)
@@ -62,6 +69,31 @@ def run(prog, rep, tier='quick'):
                     else:
                         rep.violation('hermitian', f.qname, c, 'the psi sequence is transformed to %s points, not NFFT = %s: the '
                                       'values do not sit on the grid k/NFFT' % (got, want_n), where)
+            # which bin sits in which slot of the returned spectrum
+            nb += 1
+            c = 'bin layout [%s]' % ctx
+            if not isinstance(psd, Num) or psd.seg is None or psd.shape is None or len(psd.shape) != 1:
+                rep.undecided('bins', f.qname, c, 'index map of the returned PSD not derivable', where)
+            elif psd.shape[0] != want_n:
+                rep.violation('bins', f.qname, c, 'the returned PSD has %s values, not NFFT = %s' % (psd.shape[0], want_n), where)
+            else:
+                off = Aff(0)
+                badseg = None
+                for sg in S.normalise(psd.seg):
+                    ident = sg.start == off and (sg.stride == 1 or sg.n == Aff(1))
+                    # real data: the spectrum is even, slot j may equally hold bin NFFT-j
+                    mirr = (not cplx) and (sg.start == want_n - off) and (sg.stride == -1 or sg.n == Aff(1))
+                    if not (ident or mirr):
+                        badseg = (off, sg)
+                        break
+                    off = off + sg.n
+                if badseg is None:
+                    rep.proved('bins', f.qname, c, 'slot j holds bin j of the NFFT-point transform%s: %s' % (
+                        '' if cplx else ' (or its mirror image NFFT-j)', S.show(psd.seg)), where)
+                else:
+                    rep.violation('bins', f.qname, c, 'from slot %s on the returned PSD holds %s: slot j must hold bin j%s of the '
+                                  'NFFT-point transform (full map: %s)' % (badseg[0], badseg[1], '' if cplx else ' or NFFT-j',
+                                                                           S.show(psd.seg)), where)
             check_sink(rep, 'units', f.qname, ctx, 'PSD', psd, {'s': F(2), 'hz': F(1), 'nfft': F(0)}, where, itp, ('s',), seen)
             if isinstance(psd, Num) and (psd.cplx is False or psd.rv):
                 rep.proved('units', f.qname, 'PSD real [%s]' % ctx, 'real part taken before the inversion', where)
@@ -137,4 +169,5 @@ def run(prog, rep, tier='quick'):
         psd = obj.f.get(PSD_FIELD)
         check_sink(rep, 'units', cls.qname, ctx, 'psd', psd, {'s': F(2), 'hz': F(1), 'nfft': F(0)}, cw)
     rep.floor('minvar contexts', n, 4)
+    rep.floor('bin layouts', nb, 4)
     rep.floor('psi transforms', nf[0], 2)
